@@ -9,6 +9,18 @@ VERUS_NOTE = ("Trusted: Verus 0.2026.09.13 + Z3, vstd's std specs, the assume_sp
               "and the canary pass), geometry cap 65535, API args <= 9999. Induction over call histories is argued in DESIGN.md.")
 
 CLAIMED = {
+ 'C08': dict(
+    text="Deductive proof on the verbatim select_graphic_rendition that the cursor rendition after the call equals sgr(attrs, old rendition, blank): the left-to-right "
+         "fold of the parameter list over the documented table -- 0 resets (to the screen's blank rendition), 1/3/4/5/7/9 set and 22/23/24/25/27/29 clear the six flags, "
+         "30-37,39 / 40-47,49 / 90-97 / 100-107 select the named colours, 38/48;5;n the palette entry n for n <= 255, 38/48;2;r;g;b the colour rrggbb for components <= 255, "
+         "unknown codes and malformed / out-of-range / truncated extended forms are ignored while consuming exactly the parameters the documented parser consumes -- for "
+         "parameter lists of ANY length and any u32 values; nothing but cursor.attr changes (no cell, whole-state frame) and its text stays a space. The five name tables and "
+         "the 256-entry palette of src/graphics.rs are verified entry by entry on their initialiser blocks (xterm cube/grey formulas as an independent spec). CharOpts::to_map "
+         "is verified; CharOpts::update_from_map is ASSUMED (applies a string map read by key text); hex rendering by format! is uninterpreted (hex6). "
+         "Routing of `CSI ... m` to the function with the whole list: Kani dispatch harness.",
+    design="5 C08", technique="Verus contracts: recursive spec fold + loop invariant on the verbatim body (15-way case split of the loop body), verified initialiser blocks of the lazy_static tables",
+    note="As the general note, plus: HashMap<String,String> is read by key text through two std axioms (String key model, String extensionality); insert/extend go through verified wrappers; "
+         "ASSUMED: CharOpts::update_from_map's contract, `format!(\"{:02x}{:02x}{:02x}\")` = hex6, a lazy_static deref yields its initialiser's value, slice to_vec/reverse, HashMap::extend = right-biased union."),
  'C05': dict(
     text="Deductive proof, for all geometries <= 65535^2, all cursor positions incl. pending wrap, all margins, DECOM on/off and all "
          "parameters in {absent} U [0,9999], that each of cursor_up/down/forward/back/up1/down1/to_column/to_line/position, backspace and "
@@ -43,8 +55,8 @@ CLAIMED = {
          "nothing but the mode set, and that each supported mode has exactly its documented side effect: DECTCEM hidden flag; DECOM homes (region-aware); "
          "DECSCNM sets/clears reverse on every observable cell incl. never-written ones, on the current rendition, and marks all rows dirty; DECCOLM "
          "saves/restores the width, resizes, erases every cell with the current rendition and homes. IRM/LNM/DECAWM are read by draw/linefeed (linefeed's LNM clause is proved; draw is C04).",
-    design="5 C12", technique="Verus contracts on the verbatim bodies; iterator-adapter expressions called out to 7 trusted one-line shims; SGR 7/27 effect assumed",
-    note="As the general note, plus: select_graphic_rendition is NOT verified (C08 n/a): its effect for [7]/[27] (reverse on/off on the current rendition only) is an assumed contract. "
+    design="5 C12", technique="Verus contracts on the verbatim bodies; iterator-adapter expressions called out to 7 trusted one-line shims; SGR 7/27 effect proved in unit sgr",
+    note="As the general note, plus: the effect of select_graphic_rendition for [7]/[27] (reverse on/off on the current rendition only) is imported from unit sgr, where it is proved (C08). "
          "The shims vec_from_slice/slice_map_collect/vec_any_eq/hs_extend_vec/hs_minus_vec/buffer_set_reverse/hs_extend_range are trusted one-liners whose bodies are the original expressions. Termination of the set_mode->resize->restore_cursor->set_mode cycle is proved with decreases clauses."),
  'C14': dict(
     text="Deductive proof that save_cursor pushes an exact snapshot (position, rendition, visibility, G0/G1/shift state, DECOM/DECAWM flags) and changes nothing else, and that "
@@ -164,6 +176,6 @@ m = dict(version=1,
                   dict(name="replay", path="replay/", serves_properties=sorted(CLAIMED), kind_free_text="plain binary linked against /repo that runs JSON scripts on the real code (violation replay, findings)")],
          checks=checks,
          notes="Contract-based deductive verification of the real code; see DESIGN.md.",
-         not_applicable=[dict(property_id=p, reason=NA.get(p, "check not built yet (framework under construction)")) for p in props if p not in CLAIMED])
+         not_applicable=[dict(property_id=p, reason=NA.get(p, "no check built")) for p in props if p not in CLAIMED])
 json.dump(m, open(os.path.join(V, 'MANIFEST.json'), 'w'), indent=1)
 print('claimed', sorted(CLAIMED))
